@@ -20,7 +20,7 @@
       is dropped by the change set (its table is dropped with that key listed, or a
       DropForeignKey / ModifyForeignKey of that symbol is present). *)
 From Coq Require Import List Bool Arith Permutation Sorted.
-From Atlas Require Import Plan.SortModel Plan.SortDfs Plan.SortReplay Plan.SortProofs Plan.SortExamples.
+From Atlas Require Import Plan.SortModel Plan.SortDfs Plan.SortReplay Plan.SortProofs Plan.SortDialect Plan.SortExamples.
 Import ListNotations.
 
 (** 1. "Plans never fail or loop because of a cycle": for EVERY change list -- any reference
@@ -89,6 +89,18 @@ Theorem C04_safe_except_any_tiebreak : forall cs c S,
   SortChanges S = Some (partition_changes S) /\ exists c', replay (partition_changes S) c = Some c'.
 Proof. exact safe_except. Qed.
 
+(** The plans mysql.DefaultPlan / postgres.DefaultPlan carry in Plan.Changes[i].Source: both rewrite
+    a ModifyTable (re-pointed key = DROP + ADD; MySQL drops in a first ALTER, PostgreSQL puts the
+    constraint drops first inside one ALTER).  Under the same hypotheses all three plans replay. *)
+Theorem C04_safe_except_dialects : forall cs c,
+  WF cs -> consistent c cs ->
+  (sortMap cs = SMCycle -> no_repoint_to_added cs) ->
+  exists l, plan cs = POk l /\
+    (exists c1, replay l c = Some c1) /\
+    (exists c2, replay (flat_map mysql_sources l) c = Some c2) /\
+    (exists c3, replay (flat_map pg_sources l) c = Some c3).
+Proof. exact plan_dialect_safe_except. Qed.
+
 Print Assumptions C04_total.
 Print Assumptions C04_total_parts.
 Print Assumptions C04_once.
@@ -96,6 +108,7 @@ Print Assumptions C04_once_wf.
 Print Assumptions C04_safe_refuted.
 Print Assumptions C04_safe_except.
 Print Assumptions C04_safe_except_any_tiebreak.
+Print Assumptions C04_safe_except_dialects.
 
 (** Non-vacuity. *)
 (* C04_total / C04_once: a 3-cycle of created tables is planned (6 changes out of 3). *)
@@ -129,6 +142,17 @@ Example C04_safe_ex_chain :
   sortMap ch_cs = SMOk [2; 1; 0] /\ plan ch_cs = POk ch_plan /\
   replay ch_plan ch_cat = Some (mkCat [1; 2; 0] [(1, 22, 2); (0, 5, 1)]).
 Proof. exact (conj ch_wf (conj ch_cons (conj ch_norepoint ch_runs))). Qed.
+
+(* the dialect plans of the chain example: the re-pointed key becomes DROP then ADD *)
+Example C04_safe_ex_dialects :
+  flat_map mysql_sources ch_plan =
+    [ AddTable (des 2) []; AddTable (des 1) [mkFK 22 (des 1) (des 2)];
+      ModifyTable (des 0) [DropFK (mkFK 5 (cur 0) (cur 3))];
+      ModifyTable (des 0) [AddFK (mkFK 5 (des 0) (des 1))];
+      DropTable (cur 3) [] ] /\
+  replay (flat_map mysql_sources ch_plan) ch_cat = Some (mkCat [1; 2; 0] [(1, 22, 2); (0, 5, 1)]) /\
+  replay (flat_map pg_sources ch_plan) ch_cat = Some (mkCat [1; 2; 0] [(1, 22, 2); (0, 5, 1)]).
+Proof. vm_compute. repeat split; reflexivity. Qed.
 
 Example C04_safe_ex_tiebreak : detach_spec ch_cs [AddTable (des 2) []; DropTable (cur 3) [];
     AddTable (des 1) [mkFK 22 (des 1) (des 2)];
